@@ -514,6 +514,10 @@ func (sc *SizeCalculator) SplitToSize(text string, boundaries []Boundary) []stri
 	var chunks []string
 
 	remaining := text
+	if sc.IsAboveMax(remaining) {
+		// surrounding whitespace never counts against the limit
+		remaining = strings.TrimSpace(remaining)
+	}
 	for len(remaining) > 0 {
 		// Check if remaining text fits within max
 		if !sc.IsAboveMax(remaining) {
